@@ -47,11 +47,21 @@ def _ev(e, env):
     t = _ev(e.test, env)
     if t[0] == "const":
       return _ev(e.body if t[1] else e.orelse, env)
-    return ("either", (_ev(e.body, env), _ev(e.orelse, env)))
+    return ("either", (_ev(e.body, env), _ev(e.orelse, env)), src(e.test))
   if isinstance(e, ast.UnaryOp) and isinstance(e.op, ast.Not):
     t = _ev(e.operand, env)
     if t[0] == "const":
       return ("const", not t[1])
+  if isinstance(e, ast.BoolOp):
+    vals = [_ev(v, env) for v in e.values]
+    decisive = isinstance(e.op, ast.Or)      # a true operand decides `or`, a false one `and`
+    if any(v[0] == "const" and bool(v[1]) == decisive for v in vals):
+      return ("const", decisive)
+    rest = [v for v in vals if v[0] != "const"]
+    if not rest:
+      return ("const", not decisive)
+    if len(rest) == 1 and len(vals) > 1:
+      return ("expr", "<" + str(rest[0][1:])[:50] + ">")   # truth value of the rest
   return ("expr", src(e)[:60])
 
 
@@ -147,7 +157,7 @@ class _Reach:
             if e1.get(k) == e2.get(k):
               env[k] = e1[k]
             else:
-              env[k] = ("either", (e1.get(k), e2.get(k)))
+              env[k] = ("either", (e1.get(k), e2.get(k)), src(st.test))
       elif isinstance(st, (ast.For, ast.AsyncFor, ast.While)):
         self._block(st.body, env, path)
         self._block(st.orelse, env, path)
@@ -250,11 +260,104 @@ def r2_24(ctx):
               f"table; the fallback is guarded by {conj}", {"guards": conj})
 
 
+def _alternatives(v):
+  if v[0] == "either":
+    for x in v[1]:
+      if x is not None:
+        yield from _alternatives(x)
+  else:
+    yield v
+
+
+@rule("R2.25", "C02", floor=1)
+def r2_25(ctx):
+  """A store through `global x` consults an annotation table, not None."""
+  mod = get_module(ctx, VM)
+  methods = mod.methods("VirtualMachine")
+  h = "byte_STORE_GLOBAL"
+  if h not in methods or SINK not in methods:
+    raise AnalysisError(f"VirtualMachine.{h} / {SINK} not found")
+  r = _Reach(methods)
+  r.run(h, {})
+  facts = {"reaches": [{"via": list(p[1:]), "annotations_dict": str(t)[:200],
+                        "check_types": str(c)} for p, t, c, _ in r.hits]}
+  if not r.hits:
+    ctx.bad("STORE_GLOBAL:annotation-table", VM, methods[h].lineno,
+            f"{h} never reaches {SINK}: a store to an annotated global is not checked", facts)
+    return
+  def is_table(a):
+    return a == ("table",) or (a[0] == "expr" and "annotated_locals" in str(a[1]))
+
+  for p, t, c, ln in r.hits:
+    # names bound to an expression over self.annotated_locals
+    table_vars = set()
+    for m_ in p:
+      for n_ in ast.walk(methods[m_]):
+        if isinstance(n_, ast.Assign) and len(n_.targets) == 1 and isinstance(n_.targets[0], ast.Name) \
+            and "annotated_locals" in src(n_.value):
+          table_vars.add(n_.targets[0].id)
+
+    asking = set(table_vars)      # locals computed from a table: tests on them ask the table
+    for m_ in p:
+      for n_ in ast.walk(methods[m_]):
+        if isinstance(n_, ast.Assign) and len(n_.targets) == 1 and isinstance(n_.targets[0], ast.Name) \
+            and any(isinstance(x, ast.Name) and x.id in table_vars for x in ast.walk(n_.value)):
+          asking.add(n_.targets[0].id)
+
+    def tabular(a):
+      return a is not None and (is_table(a) or (a[0] == "expr" and a[1] in table_vars))
+
+    def ok(v):
+      """Every way of choosing the table ends in a table - except where the
+      choice itself asked the table whether it knows the name."""
+      if v is None:
+        return False
+      if v[0] == "either":
+        asks_table = len(v) > 2 and any(tv in v[2] for tv in asking | {"annotated_locals"})
+        kids = [ok(x) for x in v[1]]
+        return any(kids) if asks_table else all(kids)
+      return tabular(v)
+    alts = list(_alternatives(t))
+    unknown = [a for a in alts if a[0] == "expr" and not tabular(a)]
+    if unknown:
+      raise AnalysisError(f"{h}: annotations_dict={t} not understood")
+    ctx.check(ok(t) and c == ("const", True), "STORE_GLOBAL:annotation-table", VM, ln,
+              f"{h} reaches {SINK} with annotations_dict={t}, check_types={c} "
+              f"(via {' -> '.join(p)}): with no table the store is only checked "
+              "when its own line carries the annotation, so `x: int = 0` followed by "
+              "`def f(): global x; x = 's'` is accepted (and the module-level "
+              "annotated store of a name some function declares global - which "
+              "CPython compiles to STORE_GLOBAL too - is not recorded: the emitted "
+              "stub says `x: Union[int, str]`)", facts)
+
+
 _DEREF_OLD = ("    value = self._apply_annotation(\n        state, op, name, value, "
               "self.current_annotated_locals, check_types=True\n    )\n"
               "    state = state.forward_cfg_node(f\"StoreDeref:{name}\")")
 
 VARIANTS = [
+    {"name": "revert-D61-global-store-without-a-table", "rule": "R2.25", "file": VM, "expect": "fire",
+     "old": ("      module_locals = self.annotated_locals.get(\"<module>\")\n"
+             "      if module_locals and name in module_locals and module_locals[name].typ:\n"
+             "        annotations_dict = module_locals\n"
+             "      else:\n"
+             "        annotations_dict = None\n"),
+     "new": "      annotations_dict = None\n"},
+    {"name": "global-store-not-type-checked", "rule": "R2.25", "file": VM, "expect": "fire",
+     "old": ("    value = self._apply_annotation(\n"
+             "        state, op, name, orig_val, annotations_dict, check_types=True\n"
+             "    )\n    value = self._process_annotations(state.node, name, value)"),
+     "new": ("    value = self._apply_annotation(\n"
+             "        state, op, name, orig_val, annotations_dict, check_types=local\n"
+             "    )\n    value = self._process_annotations(state.node, name, value)")},
+    {"name": "twin-global-table-as-conditional-expression", "rule": "R2.25", "file": VM,
+     "expect": "silent",
+     "old": ("      if module_locals and name in module_locals and module_locals[name].typ:\n"
+             "        annotations_dict = module_locals\n"
+             "      else:\n"
+             "        annotations_dict = None\n"),
+     "new": ("      known = module_locals and name in module_locals and module_locals[name].typ\n"
+             "      annotations_dict = module_locals if known else None\n")},
     {"name": "seeded-C02-r2m2", "rule": "R2.24", "patch": "seeded/C02-r2m2/patch.diff",
      "expect": "fire"},
     {"name": "store-name-as-global", "rule": "R2.24", "file": VM, "expect": "fire",
